@@ -495,6 +495,10 @@ def check_acc(cx, chk, crate):
 def touches_cursor(b):
     """Does body b build a ParseState, assign one of its cursor fields or borrow one mutably?"""
     for i in sorted(b.reach):
+        t = b.blocks[i]["term"]
+        if t["k"] == "call" and not t["func"].get("indirect") and mir.strip_generics(t["func"]["path"]).endswith("ParseState::new") \
+                and not mir.strip_generics(b.path).endswith("ParseState::new"):
+            return True     # a state made with the constructor outside the constructor: must be `new(the caller's own input)`
         for st in b.blocks[i]["stmts"]:
             if st["k"] != "assign":
                 continue
